@@ -431,6 +431,12 @@ def run(res):
             if x == y:
                 agree[stage] += 1
                 continue
+            if stage == "vm" and x.startswith("ERR XPanic(") and y.startswith("ERR XPanic ") and \
+                    x.split(" TRACE", 1)[-1] == y.split(" TRACE", 1)[-1]:
+                # a Go panic recovered by the VM (frame stack exhausted, Go-nil operand): the implementation's line carries
+                # the panic text, the VM model only the class
+                agree[stage] += 1
+                continue
             rec = {"stage": stage, "source": src, "impl": x[:600], "model": y[:600]}
             if stage == "sem":
                 if compound_target_effects(st["ast"][i]):
